@@ -1012,6 +1012,7 @@ func init() {
 		intrinsics[k] = v
 	}
 	intrinsics["path/filepath.Ext"] = intrinsics["path.Ext"]
+	intrinsics["path/filepath.Join"] = intrinsics["path.Join"]
 }
 
 func (in *Interp) beUint(st *State, s SliceV, n int64) Value {
